@@ -235,3 +235,15 @@ Theorem C12_source_cmp_bounds :
                          || mentions "Ord for" (snd (fst r)) || mentions "Eq for" (snd (fst r)))%bool) gen_impl_bounds)
   = ["PartialEq for GenericArray<T,N>"; "Eq for GenericArray<T,N>"; "PartialOrd for GenericArray<T,N>"; "Ord for GenericArray<T,N>"].
 Proof. exact (conj tie_structural_bounds tie_cmp_headers). Qed.
+
+(* ---- T1: the one-expression bodies this property's code consists of besides the modelled core, as they stand
+        in the source now (coq/gen/GenSigs.v gen_thin_bodies) ---- *)
+From Coq Require Import String.
+From GA Require Import SigTie.
+From GAGen Require Import GenSigs.
+Local Open Scope string_scope.
+
+Theorem C12_source_thin_bodies :
+  thin_of "Clone for GenericArrayImplEven<T,U>" "clone" = Some "unsafe { core :: hint :: unreachable_unchecked () }" /\
+  thin_of "Clone for GenericArrayImplOdd<T,U>" "clone" = Some "unsafe { core :: hint :: unreachable_unchecked () }".
+Proof. repeat split. Qed.
